@@ -379,6 +379,16 @@ def stacks_dropped_only_with_breakpoint(ck, F, E):
 
     def gives_up_breakpoint(body, bb):
         pd = body.postdominators()
+        # `self.breakpoint.take();` / `mem::take(&mut self.breakpoint)`
+        for c in body.calls():
+            if c.is_local or c.callee.split("::")[-1] not in ("take", "replace"):
+                continue
+            rf = C16.receiver_field(body, c)
+            if rf and rf[0] == PROGRAM and rf[1] == "breakpoint" and \
+                    (c.bb in pd.get(0, set()) or c.bb == 0 or body.dominates(c.bb, bb) or c.bb in pd.get(bb, set())):
+                if c.callee.split("::")[-1] == "take" or (len(c.args) > 1 and strip_expr(body.expr(c.args[1]))[0] == "agg" and
+                                                            strip_expr(body.expr(c.args[1]))[2] == "None"):
+                    return True
         for (b, e, sp) in field_stores(F, body, "breakpoint"):
             e = strip_expr(e)
             if e[0] == "agg" and e[2] == "None" and (b in pd.get(0, set()) or b == 0 or body.dominates(b, bb) or b in pd.get(bb, set())):
